@@ -54,10 +54,11 @@ def header_hash(repo):
 
 def engine_hash():
     files = []
-    for d, _, fs in os.walk(os.path.join(VERIF, 'engine')):
-        for f in fs:
-            if f.endswith(('.hpp', '.h')):
-                files.append(os.path.join(d, f))
+    for top in ('engine', 'harness'):
+        for d, _, fs in os.walk(os.path.join(VERIF, top)):
+            for f in fs:
+                if f.endswith(('.hpp', '.h')):
+                    files.append(os.path.join(d, f))
     files.sort()
     h = hashlib.sha256()
     for f in files:
